@@ -373,6 +373,10 @@ pub fn gen_string(d: &mut Dna, max: usize) -> String {
 		_ => max,
 	};
 	let mut s = String::new();
+	// a byte-order mark / non-character at the very start (decoders that sniff for a BOM strip it)
+	if sel % 16 == 5 && len >= 3 {
+		s.push(['\u{feff}', '\u{fffe}', '\u{fffd}'][(sel as usize / 16) % 3]);
+	}
 	while s.len() < len {
 		let k = d.u8();
 		let c = match k {
@@ -380,7 +384,7 @@ pub fn gen_string(d: &mut Dna, max: usize) -> String {
 			180..=209 => char::from_u32(0xC0 + (k as u32 % 0x40)).unwrap(),
 			210..=239 => char::from_u32(0x3041 + (k as u32 % 0x50)).unwrap(),
 			240..=250 => char::from_u32(0x1F600 + (k as u32 % 0x30)).unwrap(),
-			_ => ['\0', '"', '\\', '\n', '\u{7f}'][(k % 5) as usize],
+			_ => ['\0', '"', '\\', '\n', '\u{7f}', '\u{feff}', '\u{2028}'][(k % 7) as usize],
 		};
 		if s.len() + c.len_utf8() > len {
 			s.push('x');
